@@ -37,15 +37,24 @@ def make(shape: Dict[str, Any]) -> Any:
         loop = env.begin(ctx, t0)
         env.use_token_packets(True)
         zc = env.make_zc(loop, n_transports=n_tr)
-        s1 = Svc('S1', T1, N1, 'alpha.local.', 80, [V4A], [])
-        zc.registry.async_add(s1.info())
+        cat = {
+            'S1': Svc('S1', T1, N1, 'alpha.local.', 80, [V4A], []),
+            'S2': Svc('S2', T1, 'Beta._http._tcp.local.', 'beta.local.', 8080, [V4B], []),
+            'S3': Svc('S3', T1, 'Gamma._http._tcp.local.', 'alpha.local.', 8081, [V4B], []),  # second address of alpha.local.
+        }
+        svcs = [cat[k] for k in shape.get('services', ['S1'])]
+        for sv in svcs:
+            zc.registry.async_add(sv.info())
+        s1 = cat['S1']
         proto = zc.engine.protocols[n_tr - 1]  # the receiving socket
-        recs = {'PTR': s1.ptr(), 'SRV': s1.srv(), 'TXT': s1.txt(), 'A': s1.addrs(A)[0], 'NSEC': s1.nsec()[0]}
         sight: Dict[Tuple, Tuple[Any, Any]] = {}
-        for kind in sighted:
+        for item in sighted:
+            skey, kind = item.split('.') if '.' in item else ('S1', item)
+            sv = cat[skey]
+            recs = {'PTR': sv.ptr(), 'SRV': sv.srv(), 'TXT': sv.txt(), 'A': sv.addrs(A)[0], 'NSEC': sv.nsec()[0]}
             spec, _ttl, uniq = recs[kind]
-            age = ctx.int(f'age_{kind}', 0, 2**42)
-            cttl = ctx.int(f'cached_ttl_{kind}', 1, 2**31 - 1)
+            age = ctx.int(f'age_{skey}_{kind}', 0, 2**42)
+            cttl = ctx.int(f'cached_ttl_{skey}_{kind}', 1, 2**31 - 1)
             zc.cache.async_add_records([spec.make(cttl, t0 - age, uniq)])
             sight[spec.ident] = (t0 - age, cttl)
         port = ctx.int('port', 0, 65535) if fixed_port is None else fixed_port
@@ -68,7 +77,7 @@ def make(shape: Dict[str, Any]) -> Any:
         exp_now: Dict[Tuple, Any] = {}
         exp_later: Dict[Tuple, Any] = {}
         for qq in qs:
-            for spec, _ttl, _u, _adds in reference_answers([s1], qq, []):
+            for spec, _ttl, _u, _adds in reference_answers(svcs, qq, []):
                 seen = sight.get(spec.ident)
                 recent = seen is not None and seen[0] + 250 * seen[1] > t0
                 last_second = seen is not None and t0 - seen[0] < 1000
@@ -215,6 +224,8 @@ QUICK = {
     'a-qu-sighted': q(('alpha.local.', A, True), sighted=['A']),
     'aaaa-nsec-qu': q(('alpha.local.', AAAA, True)),
     'unregistered': q(('Nobody._http._tcp.local.', SRV, True)),
+    'two-ptrs-qu': q((T1, PTR, True), services=['S1', 'S2'], sighted=['S1.PTR', 'S2.PTR']),
+    'two-addresses-qu': q(('alpha.local.', A, True), services=['S1', 'S3'], sighted=['S1.A', 'S3.A']),
 }
 THOROUGH = {
     'mixed-qm-qu': q((T1, PTR, False), (N1, SRV, True), sighted=['PTR', 'SRV']),
